@@ -27,7 +27,10 @@ Definition rcode := (option nat * option nat)%type.
 
 Inductive qitem :=
 | QToken (w : nat)                                   (* classic: the finished sub-suite *)
-| QStart (w : nat) | QStop (w : nat)                 (* stream: startTestRun / stopTestRun of worker w's StreamToQueue *)
+| QStart (w : nat)                                   (* stream: startTestRun of worker w's StreamToQueue - main ignores it and the
+                                                        statement says nothing about who opens a worker's result when:
+                                                        not part of the model's runs, not observed *)
+| QStop (w : nat)                                    (* stream: stopTestRun of worker w's StreamToQueue *)
 | QStatus (w : nat) (id st : nat) (own : rcode) (ts : tstamp).
                                  (* stream: a status event put by worker w (w = WHICH StreamToQueue object, not a route code):
                                     test id, status, route code, timestamp *)
@@ -262,7 +265,7 @@ Record sinput := {
   si_base : bool;
   si_sched : list nat }.
 
-(* everything worker w puts on the queue: startTestRun, its events up to a raise, the broken-runner
+(* everything worker w puts on the queue that main acts on: its events up to a raise, the broken-runner
    test if what was raised is an Exception, stopTestRun *)
 Definition sroute (i : sinput) (w : nat) : option nat := nth w (si_routes i) None.
 
@@ -275,7 +278,7 @@ Fixpoint emits (rt : option nat) (w : nat) (base : bool) (s : list sitem) : list
   | SRaise :: _ => if base then [] else [QStatus w br_id st_inprogress (rt, None) TNow; QStatus w br_id st_fail (rt, None) TNow]
   end.
 Definition worker_puts (rt : option nat) (w : nat) (base : bool) (s : list sitem) : list qitem :=
-  QStart w :: emits rt w base s ++ [QStop w].
+  emits rt w base s ++ [QStop w].
 
 Inductive smain :=
 | SMSpawn (k : nat) | SMGet | SMStatus (q : qitem) | SMJoin (w : nat) | SMDone.
